@@ -179,3 +179,9 @@ pub mod wait {
         wait_for_ctrl_c.await.map_err(|_| RegistrationFailed)
     }
 }
+
+/// Add-only re-export for the external verification harness (feature `verif_hooks`, off by default).
+#[cfg(feature = "verif_hooks")]
+pub mod verif {
+    pub use super::store::in_memory::InMemoryPersistence;
+}
